@@ -223,7 +223,19 @@ func (c *fnCtx) callGhostMods(cc *ssa.CallCommon) []string {
 				out = append(out, m)
 			}
 		}
+		out = append(out, ci.con.GhostMods...)
+		if ci.con.HasMod {
+			return out
+		}
 	}
+	// ghost effects reached through callees without a (complete) contract
+	ms := c.g.modSetOfCall(c.fn, cc)
+	for m := range ms.comps {
+		if strings.HasPrefix(m, "$g:") {
+			out = append(out, m[3:])
+		}
+	}
+	sort.Strings(out)
 	return out
 }
 
@@ -246,7 +258,7 @@ func (c *fnCtx) staticModComps(ci calleeInfo) []string {
 // modItemComps resolves one modifies item ("p.f", "p.f[*]", "Type.f", "$mem:T") statically.
 func (c *fnCtx) modItemComps(ci calleeInfo, item string) []string {
 	if strings.HasPrefix(item, "g_") {
-		return nil
+		return []string{"$g:" + item}
 	}
 	if strings.HasPrefix(item, "$mem:") || strings.HasPrefix(item, "$ghost:") {
 		if strings.HasPrefix(item, "$ghost:") {
@@ -449,6 +461,11 @@ func (c *fnCtx) applyContract(st *State, ci calleeInfo, args []SymVal, rt types.
 		c.oblige(st, "pre:"+short, t, r.Text, props, pos)
 	}
 	// havoc
+	for _, gm := range con.GhostMods {
+		n := c.fresh("g")
+		c.declare(n, "Int")
+		st.ghost[gm] = n
+	}
 	if !con.HasMod {
 		// no modifies clause: use the computed mod-set of the callee if it has a body
 		if ci.fn != nil {
